@@ -316,8 +316,10 @@ def unit_norm_shapes(job):
         merge(U.verify('normalize[%s]' % CS.show(shape), run, None, want_sample=(res_all is None)), shape, 'norm')
         # near misses: one position arbitrary
         L = len(shape)
-        if miss_mode == 'all':
+        if miss_mode == 'all' and not CS.has_spec(shape):
             poss = range(L)
+        elif miss_mode == 'all':
+            poss = sorted({si % L, (si * 7 + 3) % L, L - 1})       # hurdle-specification shapes (130 000 of them): three positions each
         elif miss_mode == 'one':
             poss = [si % L] if L else []
         else:
